@@ -366,4 +366,77 @@ RenderFile(files, p, dat) == RenderSeq(files[p].root, Env0(files, p, dat), [file
 
 SingleFile(root) == [path |-> "a", imports |-> <<>>, wxs |-> <<>>, defs |-> <<>>, root |-> root]
 RenderRoot(root, dat) == LET f == SingleFile(root) IN RenderFile([p \in {"a"} |-> f], "a", dat)
+
+-----------------------------------------------------------------------------
+(* Binding-map eligibility (C07).  `FreeIds(e, bound)`: data fields an expression reads (identifiers
+   not bound by an enclosing scope).  A field is *ineligible* for the binding-map fast path when it
+   is read anywhere the map cannot reach: inside wx:if / wx:for / template-is / include / slot
+   subtrees (their own conditions, lists, targets, data, names and values included), in the slot
+   attribute of a virtual node, or anywhere at all when the file contains an <include>. *)
+RECURSIVE FreeIds(_, _), FreeIdsItems(_, _, _), FreeIdsFields(_, _, _), FreeIdsArgs(_, _, _)
+FreeIds(e, bound) ==
+    CASE e.k = "id"   -> IF e.n \in bound THEN {} ELSE {e.n}
+      [] e.k = "lit"  -> {}
+      [] e.k = "un"   -> FreeIds(e.x, bound)
+      [] e.k = "bin"  -> FreeIds(e.l, bound) \cup FreeIds(e.r, bound)
+      [] e.k = "cond" -> FreeIds(e.c, bound) \cup FreeIds(e.a, bound) \cup FreeIds(e.b, bound)
+      [] e.k = "mem"  -> FreeIds(e.e, bound)
+      [] e.k = "idx"  -> FreeIds(e.e, bound) \cup FreeIds(e.i, bound)
+      [] e.k = "call" -> FreeIds(e.f, bound) \cup FreeIdsArgs(e.as, 1, bound)
+      [] e.k = "arr"  -> FreeIdsItems(e.xs, 1, bound)
+      [] e.k = "obj"  -> FreeIdsFields(e.fs, 1, bound)
+FreeIdsArgs(as, i, bound) == IF i > Len(as) THEN {} ELSE FreeIds(as[i], bound) \cup FreeIdsArgs(as, i + 1, bound)
+FreeIdsItems(xs, i, bound) ==
+    IF i > Len(xs) THEN {} ELSE (IF xs[i].t = "hole" THEN {} ELSE FreeIds(xs[i].e, bound)) \cup FreeIdsItems(xs, i + 1, bound)
+FreeIdsFields(fs, i, bound) ==
+    IF i > Len(fs) THEN {}
+    ELSE (IF fs[i].t = "short" THEN (IF fs[i].n \in bound THEN {} ELSE {fs[i].n}) ELSE FreeIds(fs[i].e, bound))
+         \cup FreeIdsFields(fs, i + 1, bound)
+
+RECURSIVE PiecesIds(_, _, _)
+PiecesIds(ps, i, bound) ==
+    IF i > Len(ps) THEN {} ELSE (IF ps[i].t = "e" THEN FreeIds(ps[i].e, bound) ELSE {}) \cup PiecesIds(ps, i + 1, bound)
+ValueIds(v, bound) == CASE v.t = "e" -> FreeIds(v.e, bound) [] v.t = "m" -> PiecesIds(v.ps, 1, bound) [] OTHER -> {}
+
+RECURSIVE AttrsIds(_, _, _), SlotScopeNames(_, _)
+AttrsIds(at, i, bound) == IF i > Len(at) THEN {} ELSE ValueIds(at[i].v, bound) \cup AttrsIds(at, i + 1, bound)
+SlotScopeNames(at, i) ==
+    IF i > Len(at) THEN {}
+    ELSE (IF at[i].f = "slot:" THEN {IF at[i].v.t = "s" /\ at[i].v.s # "" THEN at[i].v.s ELSE Camel(at[i].n)} ELSE {})
+         \cup SlotScopeNames(at, i + 1)
+
+(* <<all, dyn>>: fields read at all / read in unreachable positions, in a node sequence *)
+RECURSIVE UsesSeq(_, _, _), UsesNode(_, _, _)
+Both(x) == [all |-> x, dyn |-> x]
+Join(a, b) == [all |-> a.all \cup b.all, dyn |-> a.dyn \cup b.dyn]
+Gate(x, inDyn) == IF inDyn THEN Both(x) ELSE [all |-> x, dyn |-> {}]
+RECURSIVE BranchUses(_, _, _)
+BranchUses(brs, i, bound) ==
+    IF i > Len(brs) THEN Both({})
+    ELSE Join(Join(Both(ValueIds(brs[i].c, bound)), UsesSeq(brs[i].ch, bound, TRUE)), BranchUses(brs, i + 1, bound))
+UsesNode(n, bound, inDyn) ==
+    CASE n.t = "text"    -> Gate(PiecesIds(n.ps, 1, bound), inDyn)
+      [] n.t = "comment" -> Both({})
+      [] n.t = "elem"    -> LET b2 == bound \cup SlotScopeNames(n.at, 1)
+                            IN Join(Gate(AttrsIds(n.at, 1, b2), inDyn), UsesSeq(n.ch, b2, inDyn))
+      [] n.t = "if"      -> Join(BranchUses(n.brs, 1, bound), UsesSeq(n.els, bound, TRUE))
+      [] n.t = "for"     -> Join(Both(ValueIds(n.list, bound)), UsesSeq(n.ch, bound \cup {n.item, n.index}, TRUE))
+      [] n.t = "block"   -> UsesSeq(n.ch, bound, inDyn)
+      [] n.t = "blockslot" -> Join(Both(ValueIds(n.slot, bound)), UsesSeq(n.ch, bound, inDyn))
+      [] n.t = "tmplis"  -> Both(ValueIds(n.target, bound) \cup ValueIds(n.data, bound))
+      [] n.t = "include" -> Both({})
+      [] n.t = "slot"    -> Both(ValueIds(n.name, bound) \cup AttrsIds(n.at, 1, bound))
+UsesSeq(ns, bound, inDyn) ==
+    IF ns = <<>> THEN Both({}) ELSE Join(UsesNode(ns[1], bound, inDyn), UsesSeq(Tail(ns), bound, inDyn))
+
+RECURSIVE HasInclude(_), HasIncludeN(_)
+HasIncludeN(n) == CASE n.t = "include" -> TRUE
+                    [] n.t \in {"elem", "for", "block", "blockslot"} -> HasInclude(n.ch)
+                    [] n.t = "if" -> (\E i \in 1..Len(n.brs) : HasInclude(n.brs[i].ch)) \/ HasInclude(n.els)
+                    [] OTHER -> FALSE
+HasInclude(ns) == \E i \in 1..Len(ns) : HasIncludeN(ns[i])
+
+FileUses(f) == UsesSeq(f.root, {f.wxs[i].n : i \in 1..Len(f.wxs)}, FALSE)
+(* the fields the fast path must not be offered for *)
+Ineligible(f) == IF HasInclude(f.root) THEN FileUses(f).all ELSE FileUses(f).dyn
 =============================================================================
